@@ -13,7 +13,8 @@ Clause(e) ==
                       ELSE IF phase = "replay" /\ e.outcome # "same" /\ ~e.faulted THEN "C12.CleanSession"
                       ELSE "ok"
     [] e.ev = "close" -> IF ~e.ok THEN "C12.CloseCompletes" ELSE IF ~e.locksFree THEN "C12.LocksFreeWhenIdle" ELSE IF e.avail THEN "C12.CloseCompletes" ELSE "ok"
-    [] e.ev = "reconnect" -> IF ~e.locksFree THEN "C12.LocksFreeWhenIdle" ELSE IF ~e.faulted /\ (~e.ok \/ ~e.avail) THEN "C12.ReconnectWorks" ELSE "ok"
+    [] e.ev = "reconnect" -> IF ~e.locksFree THEN "C12.LocksFreeWhenIdle" ELSE IF ~e.faulted /\ (~e.ok \/ ~e.avail) THEN "C12.ReconnectWorks"
+                             ELSE IF ~e.ok /\ e.avail THEN "C12.RaisedLeavesUnavailable" ELSE "ok"
     [] OTHER -> "ok"
 Next ==
   \/ /\ ~done /\ verdict = "ok" /\ l <= Len(Traces[tid])
